@@ -46,7 +46,9 @@ let hex_of_n (x : n) : string =
     Bytes.to_string b
 let o_rsaep n e s = be_val (unhex (oracle (String.concat " " ["rsa_ep"; hexs n; dec_of_n e; hex_of_n s])))
 let o_pkcs1 n e h dig sg = rfc_pkcs1_verify o_rsaep n e h dig sg
-let o_pss n e h salt dig sg = rfc_pss_verify o_hash o_rsaep n e h salt dig sg
+(* crypto/rsa.VerifyPSS as tink-go calls it: SaltLength = the key's salt length, 0 = auto-detect
+   (model/Rsa8017.v go_pss_verify); the known finding "saltlen=0 not bound" is part of the model *)
+let o_pss n e h salt dig sg = go_pss_verify o_hash o_rsaep n e h salt dig sg
 
 let show = function Ok _ -> "accept" | Err -> "reject" | Panic -> "MODEL-PANIC"
 
